@@ -269,7 +269,7 @@ pub fn worker(ctx: &RunCtx, args: &[String]) {
     let mut seen: HashSet<u64> = HashSet::new();
     let mut failure: Option<(String, Fail)> = None;
     let mut hashes: Vec<u64> = vec![];
-    let mut run_one = |s: &str, st: &mut Stats, seen: &mut HashSet<u64>, hashes: &mut Vec<u64>, record: bool| -> Option<Fail> {
+    let run_one = |s: &str, st: &mut Stats, seen: &mut HashSet<u64>, hashes: &mut Vec<u64>, record: bool| -> Option<Fail> {
         let h = hash64(&s);
         if !seen.insert(h) {
             return None;
